@@ -1953,11 +1953,34 @@ func c10Cuts(ctx *core.Ctx, r *rand.Rand, reqs *[]string, pend *[]func(string)) 
 	out := new(bytes.Buffer)
 	w := parquet.NewSortingWriter[c10K](out, int64(maxRows),
 		parquet.SortingWriterConfig(parquet.SortingColumns(parquet.Ascending("k")), parquet.DropDuplicatedRows(dedupe)))
+	// the writer is reused through Reset for a second, independent history in one case out of four
+	rounds := 1
+	if r.Intn(4) == 0 {
+		rounds = 2
+	}
+	var earlier []string
+	for round := 0; round < rounds; round++ {
+		if round > 0 {
+			out = new(bytes.Buffer)
+			w.Reset(out)
+			ctx.Hist("sorting-writer-call", "Reset")
+		}
+		calls, ok := c10CutsRound(ctx, r, reqs, pend, w, out, maxRows, dedupe, nkeys, earlier)
+		if !ok {
+			return
+		}
+		earlier = append(earlier, calls, "Close", "Reset")
+	}
+}
+
+func c10CutsRound(ctx *core.Ctx, r *rand.Rand, reqs *[]string, pend *[]func(string), w *parquet.SortingWriter[c10K], out *bytes.Buffer,
+	maxRows int, dedupe bool, nkeys int, earlier []string) (calls string, ok bool) {
 	schema := w.Schema()
 	var ops []string
 	var written []c10K
 	detail := func() map[string]any {
-		return map[string]any{"sort_row_count": maxRows, "drop_duplicated_rows": dedupe, "calls": strings.Join(ops, " "), "variant": ctx.Variant}
+		return map[string]any{"sort_row_count": maxRows, "drop_duplicated_rows": dedupe, "calls": strings.Join(ops, " "),
+			"earlier_calls_on_the_same_writer": strings.Join(earlier, " "), "variant": ctx.Variant}
 	}
 	fail := ""
 	for i, k := 0, 1+r.Intn(8); i < k && fail == ""; i++ {
@@ -1973,7 +1996,7 @@ func c10Cuts(ctx *core.Ctx, r *rand.Rand, reqs *[]string, pend *[]func(string)) 
 		batch := make([]c10K, nb)
 		var ks []string
 		for j := range batch {
-			batch[j] = c10K{K: int64(r.Intn(nkeys)), V: int64(len(written) + j)}
+			batch[j] = c10K{K: int64(r.Intn(nkeys)), V: int64(len(earlier))*100000 + int64(len(written)+j)} // V: unique per writer
 			ks = append(ks, fmt.Sprint(batch[j].K))
 		}
 		written = append(written, batch...)
@@ -1998,7 +2021,7 @@ func c10Cuts(ctx *core.Ctx, r *rand.Rand, reqs *[]string, pend *[]func(string)) 
 		}
 	}
 	req := fmt.Sprintf("swcuts %d %d %s", maxRows, map[bool]int{false: 0, true: 1}[dedupe], strings.Join(ops, " "))
-	ctx.Case(req, len(ops) > 2)
+	ctx.Case(req+" | after: "+strings.Join(earlier, " "), len(ops) > 2)
 	ctx.Hist("sort-run-rows", fmt.Sprint(maxRows))
 	if fail == "" {
 		if err := w.Flush(); err != nil { // what Close starts with
@@ -2007,7 +2030,7 @@ func c10Cuts(ctx *core.Ctx, r *rand.Rand, reqs *[]string, pend *[]func(string)) 
 	}
 	if fail != "" {
 		ctx.Fail("L1", "sorting-writer-call-error", "a Write/WriteRows/Flush call on a sorting writer failed: "+fail, detail())
-		return
+		return "", false
 	}
 	runs, buffered := parquet.VerifSortingWriterRuns(w)
 	got := fmt.Sprintf("ok runs=%s buf=%d", core.JoinInts(runs), buffered)
@@ -2022,7 +2045,7 @@ func c10Cuts(ctx *core.Ctx, r *rand.Rand, reqs *[]string, pend *[]func(string)) 
 	// L1 on the output
 	if err := w.Close(); err != nil {
 		ctx.Fail("L1", "sorting-writer-call-error", "Close failed: "+err.Error(), detail())
-		return
+		return "", false
 	}
 	var got1 []c10K
 	if len(written) > 0 || out.Len() > 0 {
@@ -2030,7 +2053,7 @@ func c10Cuts(ctx *core.Ctx, r *rand.Rand, reqs *[]string, pend *[]func(string)) 
 		got1 = make([]c10K, rd.NumRows())
 		if n, err := rd.Read(got1); n != len(got1) || (err != nil && err != io.EOF) {
 			ctx.Fail("L1", "sorting-writer-call-error", fmt.Sprintf("reading the output back: %d of %d rows, %v", n, len(got1), err), detail())
-			return
+			return "", false
 		}
 		rd.Close()
 	}
@@ -2069,13 +2092,15 @@ func c10Cuts(ctx *core.Ctx, r *rand.Rand, reqs *[]string, pend *[]func(string)) 
 		d["out"] = fmt.Sprint(got1)
 		ctx.Fail("L1", "sorting-writer-history "+map[bool]string{false: "order-or-permutation", true: "dedupe"}[dedupe],
 			"after a history of Write/WriteRows/Flush calls and Close: "+bad, d)
+		return "", false
 	}
+	return strings.Join(ops, " "), true
 }
 
 // ---------------------------------------------------------------- entry point
 
 func RunC10(ctx *core.Ctx) {
-	ctx.SetRule("L1: sort.Sort on GenericBuffer[T], Buffer, RowBuffer[T] and SortingWriter[T] Close, each through its typed Write and through its []Row entry point (WriteRows; the rows are lent from producer memory that is reused and overwritten after every call) over five struct schemas (required / optional pointer / optional zero-is-null / nested optional group / repeated leaves, also repeated leaves placed before the required key columns; required and optional leaves below two optional groups, below a repeated group and below a required group), 0-3 sorting columns x asc/desc x nulls first/last, null and value runs of length 1,2,3,7,8,9,15,16,17,64,65, small alphabets (duplicates), write batches around 8 and 64, explicit Flush() calls between the writes of a sorting writer, optional second phase (write more, sort again); Write/WriteRows/Flush/Close histories on a sorting writer with sort runs of 1..64 rows; L2: broadcastRangeInt32 for lengths 0..40,63..65,127..129,255,257 x 17 bases, and write/Swap/Less/Page histories on one optional column against the Lean OptCol mirror (flat, and as required / optional leaf of an optional group with nulls at every level below the maximum) and on one repeated column against the RepCol mirror; what Buffer.configure sets up (buffer kind, reversed wrapper, null ordering function) for every leaf of the static schemas and of random schemas nested up to depth 4 against the Lean mirror `configure`; the rows per temporary row group of the sorting writer against the Lean mirror of the writeRows loop. Distinct by canonical input; non-trivial = some nullable sorting column holds both nulls and values (L1), run length >= 8 not a multiple of 8 (kernel), more than 3 ops (history), a required leaf with inherited levels (configure), more than 2 calls (sorting writer history)")
+	ctx.SetRule("L1: sort.Sort on GenericBuffer[T], Buffer, RowBuffer[T] and SortingWriter[T] Close, each through its typed Write and through its []Row entry point (WriteRows; the rows are lent from producer memory that is reused and overwritten after every call) over five struct schemas (required / optional pointer / optional zero-is-null / nested optional group / repeated leaves, also repeated leaves placed before the required key columns; required and optional leaves below two optional groups, below a repeated group and below a required group), 0-3 sorting columns x asc/desc x nulls first/last, null and value runs of length 1,2,3,7,8,9,15,16,17,64,65, small alphabets (duplicates), write batches around 8 and 64, explicit Flush() calls between the writes of a sorting writer, optional second phase (write more, sort again); Write/WriteRows/Flush/Close histories on a sorting writer with sort runs of 1..64 rows, the writer reused through Reset for a second history; L2: broadcastRangeInt32 for lengths 0..40,63..65,127..129,255,257 x 17 bases, and write/Swap/Less/Page histories on one optional column against the Lean OptCol mirror (flat, and as required / optional leaf of an optional group with nulls at every level below the maximum) and on one repeated column against the RepCol mirror; what Buffer.configure sets up (buffer kind, reversed wrapper, null ordering function) for every leaf of the static schemas and of random schemas nested up to depth 4 against the Lean mirror `configure`; the rows per temporary row group of the sorting writer against the Lean mirror of the writeRows loop. Distinct by canonical input; non-trivial = some nullable sorting column holds both nulls and values (L1), run length >= 8 not a multiple of 8 (kernel), more than 3 ops (history), a required leaf with inherited levels (configure), more than 2 calls (sorting writer history)")
 	d := ctx.Driver()
 	if ctx.Replay != "" {
 		c10Guard(ctx, "panic-in-replay", "replaying a recorded case panicked", func() map[string]any { return map[string]any{"file": ctx.Replay} },
@@ -2122,7 +2147,7 @@ func RunC10(ctx *core.Ctx) {
 		c06Flush(ctx, d, &reqs, &pend)
 		// … on a required / optional leaf of an optional group (null at levels below the maximum)
 		rn := ctx.Rand("c10-nested-history")
-		for i, n := 0, ctx.Scale(2000, 20000); i < n; i++ {
+		for i, n := 0, ctx.Scale(1500, 15000); i < n; i++ {
 			c10Guard(ctx, "panic-in-optional-buffer-history", "a write/Swap/Less/Page history panicked outside its guarded operations", nil,
 				func() { c10HistoryNested(ctx, rn, &reqs, &pend) })
 			if len(reqs) >= 2000 {
@@ -2134,7 +2159,7 @@ func RunC10(ctx *core.Ctx) {
 		rc := ctx.Rand("c10-configure")
 		static := []*parquet.Schema{parquet.SchemaOf(new(c10A)), parquet.SchemaOf(new(c10B)), parquet.SchemaOf(new(c10C)),
 			parquet.SchemaOf(new(c10D)), parquet.SchemaOf(new(c10E)), parquet.SchemaOf(new(c10Nest1)), parquet.SchemaOf(new(c10Nest2))}
-		for i, n := 0, ctx.Scale(3000, 30000); i < n; i++ {
+		for i, n := 0, ctx.Scale(2000, 20000); i < n; i++ {
 			c10Guard(ctx, "panic-in-buffer-configure", "NewBuffer on a nested schema with sorting columns panicked", nil, func() {
 				var schema *parquet.Schema
 				if i < 40*len(static) {
@@ -2155,7 +2180,7 @@ func RunC10(ctx *core.Ctx) {
 		c06Flush(ctx, d, &reqs, &pend)
 		// … and the run cuts of the sorting writer over Write/WriteRows/Flush histories
 		rw := ctx.Rand("c10-sorting-writer-history")
-		for i, n := 0, ctx.Scale(1500, 15000); i < n; i++ {
+		for i, n := 0, ctx.Scale(1000, 10000); i < n; i++ {
 			c10Guard(ctx, "panic-in-sorting-writer-history", "a Write/WriteRows/Flush/Close history on a sorting writer panicked", nil,
 				func() { c10Cuts(ctx, rw, &reqs, &pend) })
 			if len(reqs) >= 1000 {
